@@ -74,7 +74,7 @@ pub fn check_c14(ctx: &mut Ctx, cfg: &Cfg, how: How) {
         let mut bytes = None;
         if let WOut::Ok(n) = &r {
             if *n <= (1 << 22) {
-                let mut buf = vec![0u8; *n];
+                let mut buf = drive::dirty(*n);
                 let got = write(w, &mut buf);
                 bytes = Some((got, buf));
             }
@@ -314,7 +314,7 @@ fn build_with_history(cfg: &Cfg, h: u64) -> (WOut, Option<Vec<u8>>) {
             if *n > (1 << 22) {
                 return (r, None);
             }
-            let mut buf = vec![0u8; *n];
+            let mut buf = drive::dirty(*n);
             match write(w, &mut buf) {
                 WOut::Ok(m) if m == *n => (r, Some(buf)),
                 other => (other, None),
